@@ -28,6 +28,7 @@ func (p *C09) Prepare(env *Env, tier string, seed uint64) error {
 	if err := p.w.Load(env); err != nil {
 		return err
 	}
+	p.w.Edge = true
 	nSent := 40
 	p.nRand = 5000
 	if tier == "thorough" {
@@ -552,13 +553,14 @@ func (p *C09) Generate(seed uint64, run int) *Case {
 	if _, ok := c.HasLabel("fault:F10:dictionary"); ok {
 		nf = 0
 	}
+	readErrAt := -1
 	if nf == 2 && r.Chance(1, 2) {
 		nf = 3
 	}
 	for i := 0; i < nf; i++ {
 		kinds := []string{"flag", "flag", "fs"}
 		if b.Input != nil {
-			kinds = append(kinds, "truncate", "truncate", "corrupt", "corrupt", "badutf8", "overlong", "inpath")
+			kinds = append(kinds, "truncate", "truncate", "corrupt", "corrupt", "badutf8", "overlong", "inpath", "readerr")
 		}
 		switch model.Pick(r, kinds) {
 		case "truncate":
@@ -570,6 +572,15 @@ func (p *C09) Generate(seed uint64, run int) *Case {
 				b.Input = faultCorrupt(r, b.Input, b.Class)
 			}
 			c.Labels = append(c.Labels, "fault:F6:corrupt")
+		case "readerr":
+			readErrAt = r.Intn(len(b.Input) + 1)
+			if b.Class == "text" && len(b.Input) > 0 && r.Chance(1, 2) {
+				readErrAt = cutInsideToken(r, b.Input)
+				if readErrAt > len(b.Input) {
+					readErrAt = len(b.Input)
+				}
+			}
+			c.Labels = append(c.Labels, "fault:F5:read-error")
 		case "badutf8":
 			b.Input = faultBadUTF8(r, b.Input)
 			c.Labels = append(c.Labels, "fault:F7:bad-utf8")
@@ -628,9 +639,16 @@ func (p *C09) Generate(seed uint64, run int) *Case {
 		}
 	}
 	st := b.StepOf(r.U64())
-	if r.Chance(3, 4) {
+	if r.Chance(3, 4) || readErrAt >= 0 {
 		if st.Stdin != nil {
 			st.Stdin.Plan = GenPlan(r)
+			if readErrAt >= 0 {
+				if readErrAt > len(st.Stdin.Data) {
+					readErrAt = len(st.Stdin.Data)
+				}
+				st.Stdin.Plan.ErrNo = model.Pick(r, []string{"EIO", "EIO", "EISDIR", "EACCES"})
+				st.Stdin.Plan.ErrAfter = readErrAt
+			}
 		}
 		st.MapPolicy = model.Pick(r, mapPolicies)
 		st.SchedPolicy = model.Pick(r, schedPolicies)
@@ -717,6 +735,15 @@ func checkProcess(st *Step, r *Result) []Finding {
 		})
 		return fs
 	}
+	if r.Exit == 0 && r.Journal != nil {
+		for _, f := range r.Journal.Faults {
+			if strings.HasPrefix(f, "read:") {
+				fs = append(fs, Finding{Signature: "C09/contract/success-despite-read-error/" + cmd,
+					Detail: fmt.Sprintf("`crd %s` exited 0 although reading its input failed (%s): whatever followed the error was dropped silently; stdout %q", strings.Join(st.Argv, " "), f, first(r.Stdout, 120))})
+				break
+			}
+		}
+	}
 	if r.Exit != 0 {
 		if len(bytes.TrimSpace(r.Stderr)) == 0 {
 			fs = append(fs, Finding{Signature: "C09/contract/nonzero-exit-without-diagnostic/" + cmd,
@@ -727,6 +754,16 @@ func checkProcess(st *Step, r *Result) []Finding {
 				Detail: fmt.Sprintf("`crd %s` exit %d but stdout has %d bytes: %q", strings.Join(st.Argv, " "), r.Exit, len(r.Stdout), first(r.Stdout, 120))})
 		}
 	} else {
+		// a command that succeeds produces its result: on stdout, or in the -o file
+		if oi := outArg(st.Argv); oi != "" {
+			if _, ok := r.Created[oi]; !ok && !bytes.Contains(r.Stderr, []byte(`"level":"ERROR"`)) {
+				fs = append(fs, Finding{Signature: "C09/contract/success-without-result/" + cmd,
+					Detail: fmt.Sprintf("`crd %s` exited 0 but did not write %s (stdout %d bytes, stderr %q)", strings.Join(st.Argv, " "), oi, len(r.Stdout), first(r.Stderr, 120))})
+			}
+		} else if len(r.Stdout) == 0 && !bytes.Contains(r.Stderr, []byte(`"level":"ERROR"`)) && dataProducing(cmd) {
+			fs = append(fs, Finding{Signature: "C09/contract/success-without-result/" + cmd,
+				Detail: fmt.Sprintf("`crd %s` exited 0 and printed nothing at all (stderr %q)", strings.Join(st.Argv, " "), first(r.Stderr, 120))})
+		}
 		// exit 0 with no result anywhere and an ERROR-level diagnostic: the
 		// command failed without signalling it
 		if bytes.Contains(r.Stderr, []byte(`"level":"ERROR"`)) {
@@ -740,6 +777,26 @@ func checkProcess(st *Step, r *Result) []Finding {
 		}
 	}
 	return fs
+}
+
+// outArg returns the value of -o/--output ("" when absent or empty).
+func outArg(argv []string) string {
+	v := ""
+	for i := 0; i+1 < len(argv); i++ {
+		if argv[i] == "-o" || argv[i] == "--output" {
+			v = argv[i+1]
+		}
+	}
+	return v
+}
+
+// dataProducing: commands that print a result whenever they succeed.
+func dataProducing(cmd string) bool {
+	switch cmd {
+	case "text parse", "text conv degree", "text conv syllable", "write", "write event", "write parse", "write conv", "gen attr":
+		return true
+	}
+	return strings.HasPrefix(cmd, "info attr ") || strings.HasPrefix(cmd, "info chord ") || strings.HasPrefix(cmd, "info key ")
 }
 
 func ticksOf(r *Result) int64 {
@@ -888,7 +945,7 @@ func (p *C09) Rule() string {
 func (p *C09) Assumptions() []string {
 	return []string{
 		"termination is judged by the logical clock: budget 2e7 + 100*bytes (+ track-count and max-degree terms) ticks, measured cost is about 10 ticks per byte; eof-spin = more than 10000 reads after EOF; a 300 s wall-clock backstop",
-		"write errors on stdout/-o and mid-stream read errors are not injected (no given property constrains them)",
+		"write errors on stdout/-o are not injected (no given property constrains them); a mid-stream read error (EIO and friends) is injected and must not end in exit 0",
 		"crd write play / crd midi port are not exercised",
 		"--track between 70001 and 2e9-1 and gen attr -d above 1500 are not generated (legitimately heavy work, not a hang)",
 		"an exit-0 run that logged at ERROR level is judged a failure that was not signalled (crd logs at ERROR level only when a command fails)",
